@@ -238,6 +238,34 @@ theorem deadlock_free_of_acyclic (wf : WF d filt rank) (hN : ∀ r, rank r < N) 
 
 end Acyclic
 
+/-! ## The generated documents of the correspondence check lie in the domain of the theorems -/
+
+/-- threads running the property's call kinds on a generated document that passes the decidable domain
+    check `CacheDoc.okRanks` (evaluated by the model driver on every generated case): sequential
+    answers and no deadlock, for every schedule -/
+theorem generated_concurrent (d : CacheDoc.Desc) (h : CacheDoc.okRanks d = true) {cfg : Cfg} (hg : cfg.sharedGuard = false)
+    (root : CacheDoc.R) (calls : List (List CacheDoc.CallK))
+    {s : State CacheDoc.Val String}
+    (hr : Reachable (CacheDoc.toDoc d) cfg (State.init [] [] (calls.map fun cs => cs.map (·.prog d root))) s) :
+    s.deadlocked (CacheDoc.toDoc d) cfg = false ∧ s.anyPanic = false ∧
+    ∀ (i : Nat) (t : Thread CacheDoc.Val String) (cs : List CacheDoc.CallK), s.threads[i]? = some t → calls[i]? = some cs →
+      t.ctl.isFinal = true →
+      t.out = Cache.outputs (CacheDoc.toDoc d) Cache.Cfg.none (d.objs.length + 2) (cs.map (·.prog d root)) := by
+  have wf := CacheDoc.wf_of_okRanks h
+  have hN := CacheDoc.rk_lt d
+  have hcalls : ∀ ps ∈ (calls.map fun cs => cs.map (·.prog d root)), ∀ p ∈ ps, FineCall (CacheDoc.filtersOf d) p := by
+    intro ps hps p hp
+    simp only [List.mem_map] at hps
+    obtain ⟨cs, _, rfl⟩ := hps
+    simp only [List.mem_map] at hp
+    obtain ⟨c, _, rfl⟩ := hp
+    exact CacheDoc.callK_fine h root c
+  have hsh : SInv (CacheDoc.toDoc d) (CacheDoc.filtersOf d) (ans (CacheDoc.toDoc d) (CacheDoc.rk d)) ⟨[], [], [], false⟩ := by
+    constructor <;> intro r <;> simp
+  refine ⟨deadlock_free_of_acyclic wf hN hg [] _ hsh hcalls hr, no_pop_assert_failure hg [] [] _ hr, ?_⟩
+  intro i t cs ht hcs hfin
+  exact results_sequential_run wf hN hg _ hcalls hr i t _ ht (by simp [hcs]) hfin _ (Nat.le_refl _)
+
 /-! ## Counter-example traces -/
 
 /-- leaf objects 6 and 7 (no nested loads), and two objects 8, 9 that load each other -/
